@@ -15,6 +15,10 @@ static ALLOC: mc_core::alloc::Counting = mc_core::alloc::Counting;
 
 const FORMATS: [&str; 1] = ["btor2"];
 
+fn long_contexts() -> [&'static [u8]; 6] {
+    [b"", b"1 ", b"1 sort ", b"1 sort bitvec ", b"1 sort bitvec 1\n2 input 1 ", b"1 sort bitvec 1\n2 "]
+}
+
 fn main() {
     mc_core::subject::install_quiet_panic_hook();
     let cli = parse_cli();
@@ -65,7 +69,8 @@ fn main() {
                     uni: tier.pick(vec![1, 2, 3, 7, 8, 9], (1..=17).collect()),
                     chunks: tier.pick(vec![Some(1), Some(3), Some(8), None], vec![Some(1), Some(2), Some(3), Some(7), Some(8), Some(9), Some(16), None]),
                 };
-                let docs = inp.all();
+                let mut docs = inp.all();
+                docs.extend(generic::long_token_docs(&long_contexts()).into_iter().map(|d| generic::Doc::new(format!("~{}", d.name), d.bytes)));
                 report.count(&format!("{kind}_documents"), docs.len() as u64);
                 report.count(&format!("{kind}_subjects"), subs.len() as u64);
                 generic::c01(&subs, &docs, &params, &budget, &mut report);
@@ -111,7 +116,7 @@ fn main() {
                 sample_docs(&mut report, kind, &inp.sequences);
                 let mut docs = inp.all();
                 docs.extend(c06::c05_docs());
-                let contexts: [&[u8]; 6] = [b"", b"1 ", b"1 sort ", b"1 sort bitvec ", b"1 sort bitvec 1\n2 input 1 ", b"1 sort bitvec 1\n2 "];
+                let contexts = long_contexts();
                 docs.extend(generic::long_token_docs(&contexts));
                 groups.push((kind.to_string(), subs, generic::dedup_docs(docs)));
             }
